@@ -190,7 +190,7 @@ def _r3(ctx, md, sym):
     if not head:
         raise AnalysisError("run(): step loop not found")
     head = head[0]
-    body = g.reachable(head, labels_avoid={"false", "exc"}) & {n.id for n in g.nodes}
+    body = g.loop_body(head)
 
     def stmt_nodes(pred):
         return [n.id for n in g.nodes if n.kind == "stmt" and n.id in body and pred(n.stmt)]
